@@ -143,6 +143,16 @@ CLAIMED = {
              "float32 logs and |SPI| > 7 are outside; nodata assumed negative. A defect that only exists in float arithmetic (e.g. 1 - 0.9 < 0.1) "
              "is invisible here. Trusted: pysym, z3, the contracts.",
         technique="differential symbolic execution with contracts for the numerical kernels + z3 UF/LIRA", ref="5 C07"),
+    "C08": dict(
+        text="Bounded symbolic verification: the SPI drivers executed for every cell-class pattern (missing / negative / zero / positive, incl. "
+             "all-negative, all-zero, all-nodata pixels) with symbolic values: every scalar division is an obligation 'denominator != 0' "
+             "(ZeroDivisionError in compiled code), every float -> int16 store an obligation 'in range' (an unclamped store of an unbounded "
+             "quantile is found as a satisfying assignment and replayed with an outlier ladder x10 .. x1e6 / x1e-300); ordering: for every "
+             "pair of valid cells x_i <= x_j => SPI_i <= SPI_j and x_i = x_j => equal, using ground monotonicity instances of the contracts; "
+             "nodata / negative cells yield nodata. T = 3 (4 thorough) for safety, 3..4 (5) for ordering; gammastd_yxt and gammastd_grp.",
+        note="Monotonicity of gammainc(a, .), ndtri, x/beta, k*x is assumed (contracts); an index whose scaled value coincides with the nodata "
+             "number is indistinguishable from nodata. Trusted: pysym, z3, contracts.",
+        technique="symbolic execution with division / cast obligations + z3 UF/LIRA with monotonicity lemma instances", ref="5 C08"),
 }
 
 NOT_APPLICABLE = {
